@@ -589,6 +589,12 @@ theorem wang_jacobian (ρ : ℕ → ℝ) :
 
 example : RExpr.evalQ (RExpr.envQ [1, 2]) wangF = some 21 := by decide +kernel
 
+/-- **wang_options_verbatim.**  Data and noise level that are given are used as given — including the
+    falsy values `0` — and only an absent option takes the default `1`. -/
+theorem wang_options_verbatim (d : ℚ) :
+    wangData (some d) = d ∧ wangData (some 0) = 0 ∧ wangData none = 1 ∧ wangStd (some d) = d ∧ wangStd none = 1 :=
+  ⟨rfl, rfl, rfl, rfl, rfl⟩
+
 /-! ## data generation -/
 
 /-- **noise_affine_gaussian.**  `noise_type = "gaussian"`: the sampling path of
